@@ -62,7 +62,10 @@ class Interp:
 
     # model
     def produced(self):
-        return mido.parse_all(self.data[:self.pos])
+        if getattr(self, '_prod_pos', None) != self.pos:
+            self._prod = mido.parse_all(self.data[:self.pos])
+            self._prod_pos = self.pos
+        return self._prod
 
     def _fail(self, clause, detail):
         self.fails.append(fail(clause, f'{detail} (target={self.target}, pos={self.pos}, data={self.data[:24]})',
@@ -77,6 +80,9 @@ class Interp:
             # byte offsets at which a yielded message starts/ends are not recomputed exactly; a cut is "inside" when
             # the prefix up to it yields fewer messages than the prefix one byte further would complete
             self._bounds = True
+        if len(self.data) > 5000:
+            self.cut_inside = True          # volume cases: not classified (it would cost O(n) per feed)
+            return
         before = len(mido.parse_all(self.data[:self.pos]))
         after_all = len(mido.parse_all(self.data[:self.pos + n]))
         if 0 < self.pos and after_all > before:
@@ -369,7 +375,26 @@ def sched_shard(rec, shard):
                           classes=('two-feeder-schedules',))
 
 
+def volume_case(n, chunk, target):
+    data = []
+    for i in range(n):
+        data += [0x90 | (i % 16), i % 128, 1 + i % 127] if i % 7 else [0xF0, i % 128, (i // 128) % 128, 0xF7]
+        if i % 11 == 0:
+            data.append(0xF8)
+    ops = []
+    k = 0
+    while k * chunk < len(data):
+        ops.append(['feed', chunk, ('bytes', 'list', 'bytearray')[k % 3]])
+        if k % 5 == 4:
+            ops.append(['iter_one'])
+            ops.append(['pending'])
+        k += 1
+    return {'data': data, 'ops': ops, 'target': target}
+
+
 def main(ctx):
+    for target in ('parser', 'queue'):
+        ctx.check(volume_case(6000, 4093, target), sample=False, classes=('volume',))
     ctx.pmap('sched_shard', [0, 1, 2])
     ctx.pmap('cuts_shard', list(R.ALL_TYPES))
     n = 1200 if ctx.tier == 'quick' else 32000
